@@ -13,13 +13,16 @@
 from __future__ import annotations
 
 import ast
+import re
 from typing import List
 
 from engine.src import FunctionInfo, own_nodes, own_nodes_incl_lambda, src_of, AnalysisError
 from engine.affine import lin, Lin, LinErr
 from engine.util import kwarg, is_self_attr
 from .pairing_rules import check_coindex, pairing
-from .c08 import _parallel_sites
+from .c08 import _parallel_sites, _strip_progress
+from .common import resolve_call
+from .sem import expander, ctext, want, xt, bind, calls, paths, stmt_of, defs_texts, guarded_values, gather_alternatives, same_selection, RAISE
 
 RULES = {
     "C17.a": "resampling indices: randint(low=0, high=X.shape[0] (exclusive), size) — every row eligible, none out of range (affine equality)",
@@ -29,96 +32,165 @@ RULES = {
 MOD = "mlinsights.mlmodel.interval_regressor"
 
 
+def _t(x) -> str:
+    return ast.unparse(x) if isinstance(x, ast.AST) else str(x)
+
+
+def _task(repo, fit: FunctionInfo):
+    sites = _parallel_sites(fit)
+    if len(sites) != 1:
+        return None, None
+    c, gen, inner, f = sites[0]
+    fake = ast.Call(func=f, args=inner.args, keywords=inner.keywords)
+    ast.copy_location(fake, inner)
+    fake._parent = getattr(inner, "_parent", None)
+    return resolve_call(repo, fit, fake), sites[0]
+
+
 def check_a(ck, repo):
     ci = repo.cls(MOD, "IntervalRegressor")
     fit = ci.methods["fit"]
-    task = repo.nested(fit, "_fit_piecewise_estimator")
+    task, site = _task(repo, fit)
+    if task is None:
+        raise AnalysisError("anchor vanished: the resampling task of IntervalRegressor.fit")
+    ex = expander(repo)
+    pX = task.named_params[2]
     draws = [c for c in own_nodes_incl_lambda(task.node) if isinstance(c, ast.Call) and src_of(c.func).split(".")[-1] in ("randint", "integers", "choice", "permutation")]
     if len(draws) != 1:
         ck.unknown("C17.a", task, "rnd = numpy.random.randint(...)", f"{len(draws)} index draws")
         return
     c = draws[0]
+    st = stmt_of(c)
     fn = src_of(c.func).split(".")[-1]
-    n = Lin.sym("X.shape[0]")
+    n = Lin.sym(f"{pX}.shape[0]")
+
+    def L(e):
+        return lin(ex.norm_expr(e, task, st))
+
     if fn in ("randint", "integers"):
         args = list(c.args)
         low = kwarg(c, "low") or (args[0] if len(args) >= 2 else None)
         high = kwarg(c, "high") or (args[1] if len(args) >= 2 else (args[0] if len(args) == 1 else None))
         if len(args) == 1 and kwarg(c, "high") is None:
-            low = None
+            low = kwarg(c, "low")
+        if high is None and low is not None:
+            low, high = None, low  # randint(low=n): a single bound is the exclusive upper one
         try:
-            lo = lin(low) if low is not None else Lin(0)
-            hi = lin(high)
+            lo = L(low) if low is not None else Lin(0)
+            hi = L(high)
         except (LinErr, TypeError):
-            ck.unknown("C17.a", task, c, "bounds are not affine expressions")
+            ck.violated("C17.a", task, c, f"the bounds of the draw ({src_of(low) if low is not None else 0}, {ex.text(high, task, st) if high is not None else None}) are not 0 and {pX}.shape[0]: rows are not all eligible or indices can fall outside the training set")
             return
         if fn == "integers" and kwarg(c, "endpoint") is not None and src_of(kwarg(c, "endpoint")) == "True":
             hi = hi + Lin(1)
         ck.verdict(lo == Lin(0), "C17.a", task, f"low = {src_of(low) if low is not None else 0}", "lowest index 0: the first row is eligible", f"lowest drawn index is {lo!r}, not 0: the first rows are never drawn")
-        ck.verdict(hi == n, "C17.a", task, c, "exclusive upper bound is the number of rows: every row is eligible and no index is out of range", f"exclusive upper bound is {hi!r}; it must equal X.shape[0]: " + ("the last row(s) are never drawn and a single-row training set raises" if (n - hi).is_const() and (n - hi).c > 0 else "indices can fall outside the training set"))
+        ck.verdict(hi == n, "C17.a", task, c, "exclusive upper bound is the number of rows: every row is eligible and no index is out of range", f"exclusive upper bound is {hi!r}; it must equal {pX}.shape[0]: " + ("the last row(s) are never drawn and a single-row training set raises" if (n - hi).is_const() and (n - hi).c > 0 else "indices can fall outside the training set"))
     else:
         a0 = c.args[0] if c.args else None
         try:
-            ok = a0 is not None and lin(a0) == n
+            ok = a0 is not None and L(a0) == n
         except LinErr:
             ok = False
         ck.verdict(ok and (fn != "choice" or (kwarg(c, "replace") is None or src_of(kwarg(c, "replace")) == "True")) and fn != "permutation", "C17.a", task, c, "indices drawn with replacement over range(X.shape[0])", "indices are not drawn with replacement over all X.shape[0] rows")
     # size
     size = kwarg(c, "size") or (c.args[2] if len(c.args) > 2 else (c.args[1] if fn == "choice" and len(c.args) > 1 else None))
-    sdef = None
-    if isinstance(size, ast.Name):
-        d = [s for s in own_nodes(task.node) if isinstance(s, ast.Assign) and src_of(s.targets[0]) == size.id]
-        sdef = src_of(d[0].value) if len(d) == 1 else None
-    ck.verdict(sdef in ("int(X.shape[0] * alpha + 0.5)", "int(alpha * X.shape[0] + 0.5)", "round(alpha * X.shape[0])", "round(X.shape[0] * alpha)"), "C17.b", task, f"size = {sdef}", "sample size is round(alpha * n)", f"the number of rows drawn is {sdef}, not round(alpha * n)")
-    # the draw indexes X along axis 0
-    tgt = [s for s in own_nodes(task.node) if isinstance(s, ast.Assign) and s.value is c]
-    name = src_of(tgt[0].targets[0]) if tgt else None
-    uses = [s for s in own_nodes(task.node) if isinstance(s, ast.Assign) and isinstance(s.value, (ast.Subscript, ast.IfExp)) and name and f"[{name}]" in src_of(s.value)]
-    ck.verdict(len(uses) == 3, "C17.b", task, f"{[src_of(u) for u in uses]}", "the draw selects rows of X, y and sample_weight", f"expected X, y and sample_weight to be indexed by '{name}', found {len(uses)} uses")
+    sdef = ex.text(size, task, st) if size is not None else None
+    alpha = task.named_params[5] if len(task.named_params) > 5 else "alpha"
+    wants = {want(repo, f"int({pX}.shape[0] * {alpha} + 0.5)", task, st), want(repo, f"round({alpha} * {pX}.shape[0])", task, st), want(repo, f"int(round({alpha} * {pX}.shape[0]))", task, st)}
+    ck.verdict(sdef in wants, "C17.b", task, f"size = {sdef}", "sample size is round(alpha * n)", f"the number of rows drawn is {sdef}, not round(alpha * n)")
 
 
 def check_b(ck, repo):
     ci = repo.cls(MOD, "IntervalRegressor")
     fit = ci.methods["fit"]
-    task = repo.nested(fit, "_fit_piecewise_estimator")
-    n = check_coindex(ck, "C17.b", repo, task, methods={"fit"}, min_args=3)
-    if n == 0:
-        ck.violated("C17.b", task, "est.fit(Xr, yr, sr)", "the model is not fitted on X, y and sample_weight selected by one and the same draw: features, target and weight of a drawn row are not kept together")
-    fits = [c for c in own_nodes_incl_lambda(task.node) if isinstance(c, ast.Call) and isinstance(c.func, ast.Attribute) and c.func.attr == "fit"]
-    ck.verdict(len(fits) == 1 and src_of(fits[0].func.value) == task.named_params[1], "C17.b", task, fits[0] if fits else "est.fit(...)", "the estimator handed to the task is the one fitted and returned", "the task fits another object than the clone it was given")
-    est = [s for s in own_nodes(fit.node) if isinstance(s, ast.Assign) and src_of(s.targets[0]) == "estimators"]
-    ck.verdict(len(est) == 1 and src_of(est[0].value) == "[clone(self.estimator) for i in range(self.n_estimators)]", "C17.b", fit, est[0] if est else "estimators = [...]", "n_estimators clones of the base regressor", "the list of models is not one clone per range(self.n_estimators)")
-    sites = _parallel_sites(fit)
-    if len(sites) != 1:
-        ck.unknown("C17.b", fit, "Parallel(...)(delayed(...))", f"{len(sites)} parallel sites")
+    task, site = _task(repo, fit)
+    ex = expander(repo)
+    pE, pX, py_, psw = task.named_params[1:5]
+    fits = calls(task, lambda c: isinstance(c.func, ast.Attribute) and c.func.attr == "fit")
+    ok_sel = False
+    if len(fits) == 1:
+        c = fits[0]
+        b = bind(c, ["X", "y", "sample_weight"])
+        if set(b) == {"X", "y", "sample_weight"}:
+            with ex.draws_are_values():
+                alts = [gather_alternatives(repo, task, b[k], c) for k in ("X", "y", "sample_weight")]
+            bases = [{a[1] for a in v} for v in alts]
+            ok_sel = bases == [{pX}, {py_}, {psw}] and same_selection(alts)
+            # the common row index is the draw
+            rows = {a[2] for v in alts for a in v}
+            draws = [d for d in own_nodes_incl_lambda(task.node) if isinstance(d, ast.Call) and src_of(d.func).split(".")[-1] in ("randint", "integers", "choice")]
+            if ok_sel and len(rows) == 1 and len(draws) == 1:
+                r = next(iter(rows))
+                dst = stmt_of(draws[0])
+                ok_sel = isinstance(dst, ast.Assign) and dst.value is draws[0] and src_of(dst.targets[0]) == r
+    ck.verdict(ok_sel, "C17.b", task, fits[0] if fits else "est.fit(Xr, yr, sr)", "X, y and sample_weight are selected by one and the same draw", "the model is not fitted on X, y and sample_weight selected by one and the same draw: features, target and weight of a drawn row are not kept together")
+    ck.verdict(len(fits) == 1 and src_of(fits[0].func.value) == pE and [p.ret_text() for p in paths(task) if p.ret != RAISE] and all(isinstance(p.ret, ast.Call) and _t(p.ret.func) == f"{pE}.fit" for p in paths(task) if p.ret != RAISE), "C17.b", task, fits[0] if fits else "est.fit(...)", "the estimator handed to the task is the one fitted and returned", "the task fits (or returns) another object than the clone it was given")
+    if site is None:
+        ck.unknown("C17.b", fit, "Parallel(...)(delayed(...))", "parallel site not found")
     else:
-        c, gen, inner, f = sites[0]
-        a = [src_of(x) for x in inner.args]
+        c, gen, inner, f = site
         lv = src_of(gen.generators[0].target)
-        ck.verdict(src_of(f) == "_fit_piecewise_estimator" and a == [lv, f"estimators[{lv}]", "X", "y", "sample_weight", "self.alpha"], "C17.b", fit, inner, "task i trains estimators[i] on a resample of (X, y, sample_weight) of relative size alpha", f"task arguments are {a}")
-        it = gen.generators[0].iter
-        loop_src = it
-        if isinstance(it, ast.Name):
-            d = [s for s in own_nodes(fit.node) if isinstance(s, ast.Assign) and src_of(s.targets[0]) == it.id]
-            loop_src = d[0].value if d else it
-        ranges = [src_of(x) for x in ast.walk(loop_src) if isinstance(x, ast.Call) and src_of(x.func) == "range"]
-        ck.verdict(bool(ranges) and all(r == "range(len(estimators))" for r in ranges), "C17.b", fit, f"loop over {ranges}", "every model is trained", "the task loop does not cover range(len(estimators))")
-        st = c._parent
-        while st is not None and not isinstance(st, ast.stmt):
-            st = getattr(st, "_parent", None)
+        b = {k: v for k, v in bind(inner, task.named_params).items()}
+        bs = {k: src_of(v) for k, v in b.items()}
+        m_arg = b.get(pE)
+        E = m_arg.value.id if isinstance(m_arg, ast.Subscript) and isinstance(m_arg.value, ast.Name) and src_of(m_arg.slice) == lv else None
+        ok = bs.get(task.named_params[0]) == lv and E is not None and bs.get(pX) == fit.named_params[1] and bs.get(py_) == fit.named_params[2] and bs.get(psw) == fit.named_params[3] and ex.text(b[task.named_params[5]], fit, stmt_of(c)) == "self.alpha"
+        ck.verdict(ok, "C17.b", fit, inner, "task i trains estimators[i] on a resample of (X, y, sample_weight) of relative size alpha", f"task arguments are {bs}")
+        okc = False
+        ds = defs_texts(repo, fit, E) if E else []
+        if len(ds) == 1:
+            try:
+                v = ast.parse(ds[0][1], mode="eval").body
+            except SyntaxError:
+                v = None
+            okc = isinstance(v, ast.ListComp) and _t(v.elt) == "clone(self.estimator)" and len(v.generators) == 1 and not v.generators[0].ifs and _t(v.generators[0].iter) in ("range(self.n_estimators)", "range(0, self.n_estimators)")
+        ck.verdict(okc, "C17.b", fit, ds[0][0] if ds else "estimators = [...]", "n_estimators clones of the base regressor", "the list of models is not one fresh clone per range(self.n_estimators)")
+        st = stmt_of(c)
+        vals = [xt(_strip_progress(x)) for _, x, _ in guarded_values(repo, fit, gen.generators[0].iter, st)]
+        w = want(repo, f"range(len({E}))", fit, st) if E else None
+        ck.verdict(bool(vals) and all(v == w for v in vals), "C17.b", fit, f"task loop over {sorted(set(v[:40] for v in vals))}", "every model is trained", "the task loop does not cover range(len(estimators))")
         ck.verdict(isinstance(st, ast.Assign) and any(is_self_attr(t, "estimators_") for t in st.targets), "C17.b", fit, "self.estimators_ = Parallel(...)", "fitted models stored in order", "fitted models are not stored as estimators_")
     # aggregation
     pa, pr, ps = ci.methods["predict_all"], ci.methods["predict"], ci.methods["predict_sorted"]
-    t = [src_of(s) for s in sorted((x for x in own_nodes(pa.node) if isinstance(x, (ast.Assign, ast.Return))), key=lambda x: x.lineno)]
-    ck.verdict(t == ["container = numpy.empty((X.shape[0], len(self.estimators_)))", "pred = est.predict(X)", "container[:, i] = pred", "return container"], "C17.b", pa, " ; ".join(t), "column i of the matrix is estimator i's prediction for every row", f"predict_all is not [one column per estimator, column i = estimators_[i].predict(X)]: {t}")
+    X = pa.named_params[1]
+    pp = [p for p in paths(pa) if p.ret != RAISE]
+    oka = False
     loops = [l for l in own_nodes(pa.node) if isinstance(l, ast.For)]
-    ck.verdict(len(loops) == 1 and src_of(loops[0].iter) == "enumerate(self.estimators_)" and src_of(loops[0].target) == "(i, est)", "C17.b", pa, loops[0] if loops else "for i, est in enumerate(self.estimators_)", "all estimators, in order", "predict_all does not enumerate all estimators")
-    t = [src_of(s) for s in sorted((x for x in own_nodes(pr.node) if isinstance(x, (ast.Assign, ast.Return))), key=lambda x: x.lineno)]
-    ck.verdict(t == ["preds = self.predict_all(X)", "return preds.mean(axis=1)"], "C17.b", pr, " ; ".join(t), "predict = row-wise mean of the individual predictions", f"predict is not predict_all(X).mean(axis=1): {t}")
-    t = [src_of(s) for s in sorted((x for x in own_nodes(ps.node) if isinstance(x, (ast.Assign, ast.Return))), key=lambda x: x.lineno)]
-    ck.verdict(t == ["preds = self.predict_all(X)", "preds[i, :] = numpy.sort(preds[i, :])", "return preds"], "C17.b", ps, " ; ".join(t), "each row of the same matrix sorted ascending", f"predict_sorted is not the row-wise ascending sort of predict_all(X): {t}")
-    loops = [l for l in own_nodes(ps.node) if isinstance(l, ast.For)]
-    ck.verdict(len(loops) == 1 and src_of(loops[0].iter) == "range(preds.shape[0])", "C17.b", ps, loops[0] if loops else "for i in range(preds.shape[0])", "every row is sorted", "predict_sorted does not sort every row")
+    if len(pp) == 1 and len(loops) == 1 and isinstance(pp[0].ret, ast.AST):
+        l = loops[0]
+        R = pp[0].ret_text()
+        shape = R.replace(" ", "")
+        alloc = any(shape.startswith(f"numpy.{fn_}(({X}.shape[0],len(self.estimators_))") for fn_ in ("empty", "zeros"))
+        if isinstance(l.iter, ast.Call) and src_of(l.iter.func) == "enumerate" and src_of(l.iter.args[0]) == "self.estimators_" and isinstance(l.target, ast.Tuple) and len(l.target.elts) == 2:
+            i_, e_ = [src_of(x) for x in l.target.elts]
+            st = {k: _t(v) for k, v in pp[0].stores.items()}
+            oka = alloc and st == {f"{R}[:, {i_}__L{l.lineno}]": f"{e_}__L{l.lineno}.predict({X})"}
+    ck.verdict(oka, "C17.b", pa, "container[:, i] = estimators_[i].predict(X) for every i", "column i of the matrix is estimator i's prediction for every row", "predict_all is not [one column per estimator, column i = estimators_[i].predict(X)]")
+    Xp = pr.named_params[1]
+    r = [p.ret_text() for p in paths(pr) if p.ret != RAISE]
+    ck.verdict(r in ([f"self.predict_all({Xp}).mean(axis=1)"], [f"numpy.mean(self.predict_all({Xp}), axis=1)"], [f"self.predict_all({Xp}).mean(1)"]), "C17.b", pr, f"return {r}", "predict = row-wise mean of the individual predictions", f"predict is not predict_all(X).mean(axis=1): {r}")
+    Xs = ps.named_params[1]
+    P = f"self.predict_all({Xs})"
+    pps = [p for p in paths(ps) if p.ret != RAISE]
+    oks = False
+    if len(pps) == 1:
+        p = pps[0]
+        rt = p.ret_text()
+        st = {k: _t(v) for k, v in p.stores.items()}
+        loops = [l for l in own_nodes(ps.node) if isinstance(l, ast.For)]
+        if rt in (f"numpy.sort({P}, axis=1)", f"numpy.sort({P})", f"numpy.sort({P}, axis=-1)") and not st:
+            oks = True
+        elif rt == P and not st and not loops:
+            ip = [_t(c_) for c_ in p.calls if isinstance(c_.func, ast.Attribute) and c_.func.attr == "sort"]
+            oks = ip in ([f"{P}.sort(axis=1)"], [f"{P}.sort()"], [f"{P}.sort(axis=-1)"], [f"{P}.sort(1)"])
+        elif rt == P and len(loops) == 1 and isinstance(loops[0].target, ast.Name):
+            l = loops[0]
+            iv = f"{l.target.id}__L{l.lineno}"
+            m_ = re.match(r"^range\((?:(\w+)\.shape\[0\]|len\((\w+)\))\)$", src_of(l.iter).replace(" ", ""))
+            nm_ = (m_.group(1) or m_.group(2)) if m_ else None
+            it_ok = nm_ is not None and [t for _, t in defs_texts(repo, ps, nm_)] == [want(repo, P, ps, l)]
+            oks = it_ok and st in ({f"{P}[{iv}, :]": f"numpy.sort({P}[{iv}, :])"}, {f"{P}[{iv}]": f"numpy.sort({P}[{iv}])"})
+    ck.verdict(oks, "C17.b", ps, "every row of predict_all(X) sorted ascending", "each row of the same matrix sorted ascending", "predict_sorted is not the row-wise ascending sort of predict_all(X)")
 
 
 def run(ck):
@@ -128,7 +200,7 @@ def run(ck):
     check_a(ck, repo)
     check_b(ck, repo)
     ck.require_count("C17.a", 1, "low and high of the draw")
-    ck.require_count("C17.b", 7, "size, uses, co-index, receiver, clones, task args, loop, storage, predict_all x2, predict, predict_sorted x2")
+    ck.require_count("C17.b", 8, "size, uses, co-index, receiver, clones, task args, loop, storage, predict_all x2, predict, predict_sorted x2")
 
 
 _F = "mlinsights/mlmodel/interval_regressor.py"
